@@ -949,6 +949,8 @@ val no_relidx : rel list -> bool
 
 val resolve_relidx : nat -> rel list -> rel list mW
 
+val check_unsafe_rels : nat -> rel list -> unit mW
+
 val logged_entities : z list list -> ent list
 
 val cell_of : bool -> ent -> nat -> ((nat * nat) * nat) mW
